@@ -63,4 +63,8 @@ async def handle(data):
     log('finish', k)
     if isinstance(data, dict) and data.get('err'):
         raise HandlerError(k, d)
+    if isinstance(data, dict) and data.get('raw'):
+        # the response is the body itself, at top level (a str incl. lone surrogates, bytes, a nested object):
+        # "any picklable response", not only the harness's dict envelope
+        return data['body']
     return {'k': k, 'digest': d, 'echo': data['body'] if data.get('echo') else None}
